@@ -158,7 +158,7 @@ def enumerated_batches(ctx, res, per=30):
     res.add_tlc(g)
     cases = g.tagged("CASE")
     total = len(cases)
-    keep = 6000 if ctx.quick else 90000
+    keep = 6000 if ctx.quick else 24000        # (90 000 documents made a 3.5 GB trace and the driver was killed for memory)
     if total > keep:
         # a seed-dependent systematic sample (every document is reached over the seeds)
         step = -(-total // keep)
